@@ -1,11 +1,15 @@
 #!/bin/bash
 # usage: confirm_seed.sh <worktree> : confirm that the seeded change passes the suite, and that demo.py fails with / passes without it
+# (the stash of a repository is shared by all its worktrees, so the change is taken out and put back with `git apply`, not `git stash`)
 wt=$1
 cd $wt || exit 2
-git diff -- graphslam > /tmp/confirm_seed.diff
-[ -s /tmp/confirm_seed.diff ] || { echo "no change in worktree"; exit 2; }
+tmp=$(mktemp -d)
+git diff -- graphslam > $tmp/change.diff
+[ -s $tmp/change.diff ] || { echo "no change in worktree"; rm -rf $tmp; exit 2; }
 echo "--- suite with the change"; /venv/bin/python -m pytest -q -p no:cacheprovider --timeout=900 2>&1 | tail -1
-echo "--- demo with the change"; /venv/bin/python demo.py > /tmp/confirm_demo_with.txt 2>&1; echo "exit $?"; tail -3 /tmp/confirm_demo_with.txt
-git stash -q -- graphslam
-echo "--- demo without the change"; /venv/bin/python demo.py > /tmp/confirm_demo_without.txt 2>&1; echo "exit $?"; tail -2 /tmp/confirm_demo_without.txt
-git stash pop -q
+echo "--- demo with the change"; /venv/bin/python demo.py > $tmp/with.txt 2>&1; echo "exit $?"; tail -3 $tmp/with.txt
+git apply -R $tmp/change.diff || { echo "could not take the change out"; rm -rf $tmp; exit 2; }
+echo "--- demo without the change"; /venv/bin/python demo.py > $tmp/without.txt 2>&1; echo "exit $?"; tail -2 $tmp/without.txt
+git apply $tmp/change.diff || echo "COULD NOT PUT THE CHANGE BACK: $tmp/change.diff kept"
+git diff --quiet -- graphslam && echo "WARNING: worktree has no change after re-applying"
+rm -rf $tmp
